@@ -98,6 +98,13 @@ func checkC06(tier string) int {
 			f := txb.Fee("1000000000", g)
 			return &f
 		}
+		// a sub-domain deleted by one transaction and created again by a later one of the same block that fails
+		cfg.ExtraPlan = func(c *gen.Ctx) []hist.TxSpec {
+			if c.H >= 4 && c.H%3 == 1 {
+				return gen.RecreateDeletedSub(c, c.W.Users[1%len(c.W.Users)], fmt.Sprint(hseed%1000))
+			}
+			return nil
+		}
 		// byzantine proposer: everything generated goes into the block
 		cfg.FilterPlan = func(c *gen.Ctx, specs []hist.TxSpec) []hist.TxSpec {
 			for k := range specs {
